@@ -25,7 +25,7 @@ WEIGHTS = ("persistence", "persistence-n2", "linear_ramp", "ramp-zero-below", "r
 BOUNDED_WEIGHTS = ("linear_ramp", "ramp-zero-below", "ramp-int-params")     # finite at infinite persistence
 
 
-def gen_config(rng, max_res=10):
+def gen_config(rng, max_res=10, exotic=False):
     p = rng.choice((0.1, 0.2, 0.25, 0.5, 1.0))
     nb, npx = rng.randint(1, max_res), rng.randint(1, max_res)
     b0 = rng.choice((0.0, 0.0, -1.0, 0.5))
@@ -35,7 +35,7 @@ def gen_config(rng, max_res=10):
         "kernel": rng.choice(KERNELS), "weight": rng.choice(WEIGHTS),
         "var": rng.choice((1.0, 0.05, 0.3, p * p, 4.0)), "rho": rng.choice((0.5, -0.3, 0.2, 0.8)),
     }
-    r = rng.random()
+    r = rng.random() if exotic else 1.0      # unusual units / offsets only where the caller fixes the region (C11)
     if r < 0.08:
         # data in tiny units (everything scaled by 1e-9; variance by its square)
         u = 1e-9
